@@ -233,7 +233,8 @@ class FFTMTF:
                 limit reference line. Defaults to False.
         """
         dx = self._get_mtf_units()
-        freq = np.arange(self.grid_size//2) * dx
+        # one frequency per plotted sample (grid_size - grid_size//2 of them)
+        freq = np.arange(self.grid_size - self.grid_size//2) * dx
 
         _, ax = plt.subplots(figsize=figsize)
 
